@@ -172,7 +172,7 @@ func newTMWired(dir string) *sidecar.TargetsManager {
 }
 
 func recC09() *vkit.Recorder {
-	r := vkit.Rec("C09", "fault_enumeration", "every TargetsManager outside the size-limited child is wired to a real Injector as in cmd/kvass/sidecar.go; label values include private-use-plane, tag, invisible and control characters; (a) rapid sequences of assignments (0-3 jobs, label values needing JSON escaping, both states, 63-bit hashes and series) applied through the real UpdateTargets, each followed by a fresh TargetsManager.Load on the same directory; (b) pairs (A acknowledged, B being written): a child process performs the real UpdateTargets(B) under RLIMIT_FSIZE = N for every byte offset N of the file (all offsets for files <= 400 bytes, a stratified sample otherwise), snapshots the store directory, the parent then starts twice from each snapshot; (c) old store file name fallback. Non-trivial = torn write strictly inside the file with A != B, or a reload of a non-empty assignment; distinct = digest of (A, B, offset) / of the assignment sequence")
+	r := vkit.Rec("C09", "fault_enumeration", "every TargetsManager outside the size-limited child is wired to a real Injector as in cmd/kvass/sidecar.go; label values include private-use-plane, tag, invisible and control characters; (a) rapid sequences of assignments (0-3 jobs, label values needing JSON escaping, both states, 63-bit hashes and series) applied through the real UpdateTargets, each followed by a fresh TargetsManager.Load on the same directory; (b) pairs (A acknowledged, B being written): a child process performs the real UpdateTargets(B) under RLIMIT_FSIZE = N for every byte offset N of the file (all offsets for files <= 400 bytes, a stratified sample otherwise), snapshots the store directory, the parent then starts twice from each snapshot; (c) a store left by an old version (targets.json): 1-3 starts, an optional acknowledged update (possibly to the empty assignment), 1-3 further starts, in a third of the starts the Prometheus reload that follows the load fails; every start must resume the last acknowledged assignment. Non-trivial = torn write strictly inside the file with A != B, or a reload of a non-empty assignment; distinct = digest of (A, B, offset) / of the assignment sequence")
 	r.Assume("a write interrupted at byte N is modelled by RLIMIT_FSIZE=N in a child process (the write syscall stores exactly the bytes below the limit, then fails with EFBIG); the rename/unlink system calls themselves are atomic; one UpdateTargets at a time (the sidecar API handler is the only writer)")
 	return r
 }
@@ -499,26 +499,97 @@ func TestC09Torn(t *testing.T) {
 
 // ---- (c) old file name
 
+// oldFileCase: a store written by an old kvass version (targets.json), a number of starts of the new version, an
+// optional acknowledged update, further starts.  Starts[i] true: the last update callback of that process (the
+// Prometheus reload that follows every target update) fails while the store is loaded.
+type oldFileCase struct {
+	A      Assign  `json:"a"`
+	Starts []bool  `json:"starts"`
+	B      *Assign `json:"b,omitempty"`
+	Later  []bool  `json:"later"`
+}
+
+func runOldFile(c *oldFileCase) []vkit.Violation {
+	dir, _ := ioutil.TempDir("", "c09-old-")
+	defer os.RemoveAll(dir)
+	data, _ := json.Marshal(c.A.request().Targets)
+	_ = ioutil.WriteFile(filepath.Join(dir, "targets.json"), data, 0644)
+	want := c.A
+	n := 0
+	var tm *sidecar.TargetsManager
+	start := func(fail bool) []vkit.Violation {
+		n++
+		tm = newTMWired(dir)
+		failing := fail
+		tm.AddUpdateCallbacks(func(map[string][]*target.Target) error {
+			if failing {
+				return fmt.Errorf("prometheus reload failed (scripted): connection refused")
+			}
+			return nil
+		})
+		err := tm.Load()
+		failing = false
+		if err != nil {
+			return []vkit.Violation{{Key: "C09/old-file/load-fails", Msg: fmt.Sprintf("start %d: %v", n, err)}}
+		}
+		if got := canon(tm.TargetsInfo()); got != canonAssign(want) {
+			return []vkit.Violation{{Key: "C09/old-file/differs", Msg: fmt.Sprintf("start %d (prometheus reload fails during the start: %v) resumed\n%s\nwant the last acknowledged assignment\n%s", n, fail, got, canonAssign(want))}}
+		}
+		return nil
+	}
+	for _, f := range c.Starts {
+		if vs := start(f); vs != nil {
+			return vs
+		}
+	}
+	if c.B != nil {
+		if err := tm.UpdateTargets(c.B.request()); err != nil {
+			return []vkit.Violation{{Key: "C09/harness", Msg: "update rejected: " + err.Error()}}
+		}
+		want = *c.B
+	}
+	for _, f := range c.Later {
+		if vs := start(f); vs != nil {
+			return vs
+		}
+	}
+	return nil
+}
+
 func TestC09OldFile(t *testing.T) {
 	rec := recC09()
 	rapid.Check(t, func(t *rapid.T) {
-		a := genAssign(t, "A", 6)
-		dir, _ := ioutil.TempDir("", "c09-old-")
-		defer os.RemoveAll(dir)
-		data, _ := json.Marshal(a.request().Targets)
-		_ = ioutil.WriteFile(filepath.Join(dir, "targets.json"), data, 0644)
-		for r := 0; r < 2; r++ {
-			tm := newTMWired(dir)
-			if err := tm.Load(); err != nil {
-				t.Fatalf("C09/old-file/load-fails: %v", err)
+		c := &oldFileCase{A: genAssign(t, "A", 6)}
+		for i := rapid.IntRange(1, 3).Draw(t, "starts"); i > 0; i-- {
+			c.Starts = append(c.Starts, rapid.IntRange(0, 2).Draw(t, fmt.Sprintf("startFails%d", i)) == 0)
+		}
+		if rapid.Bool().Draw(t, "update") {
+			var b Assign
+			if rapid.IntRange(0, 2).Draw(t, "emptyB") == 0 {
+				b = Assign{}
+			} else {
+				b = genAssign(t, "B", 6)
 			}
-			if got := canon(tm.TargetsInfo()); got != canonAssign(a) {
-				c := map[string]interface{}{"a": a}
-				p := vkit.SaveViolation("C09", "TestC09OldFile", c, []vkit.Violation{{Key: "C09/old-file/differs", Msg: got}}, nil)
-				t.Fatalf("C09/old-file/differs: start %d resumed\n%s\nwant\n%s (replay %s)", r+1, got, canonAssign(a), p)
+			c.B = &b
+			for i := rapid.IntRange(1, 3).Draw(t, "later"); i > 0; i-- {
+				c.Later = append(c.Later, rapid.IntRange(0, 2).Draw(t, fmt.Sprintf("laterFails%d", i)) == 0)
 			}
 		}
-		rec.Eval(a.count() > 0, vkit.Digest("old", canonAssign(a)), "old-file-name")
+		if bad := rec.Filter(runOldFile(c)); len(bad) > 0 {
+			p := vkit.SaveViolation("C09", "TestC09OldFile", c, bad, nil)
+			t.Fatalf("%s (replay %s)", bad[0], p)
+		}
+		cls := []string{"old-file-name"}
+		for _, f := range append(append([]bool{}, c.Starts...), c.Later...) {
+			if f {
+				cls = append(cls, "old-file/start-with-failing-prometheus-reload")
+				break
+			}
+		}
+		if c.B != nil && c.B.count() == 0 {
+			cls = append(cls, "old-file/emptied-after-migration")
+		}
+		rec.Eval(c.A.count() > 0, vkit.Digest("old", canonAssign(c.A), fmt.Sprint(c.Starts, c.Later), c.B != nil), cls...)
 	})
 }
 
